@@ -2129,6 +2129,29 @@ def run_npz(ctx):
                     V(ctx, f"npz-roundtrip-{name}", f"save_tensordict_to_npz → load_npz_to_tensordict changes the instance: {diff}",
                                   {"env": name, "generator_params": gp, "seed": seed})
                 ctx.count(f"npz:{name}:{'compressed' if compress else 'plain'}")
+                # the same instance in every storable dtype (float64 coordinates / windows beyond float32 precision, float16,
+                # integer and bool entries), through BOTH storage modes: "same instance content" includes the dtype
+                for compress2 in (False, True):
+                    for fdt in (torch.float64, torch.float16):
+                        td2 = td.clone()
+                        for k in list(td2.keys()):
+                            v = td2[k]
+                            if v.dtype.is_floating_point:
+                                w = v.to(fdt)
+                                if fdt == torch.float64:
+                                    w = torch.where(torch.isfinite(w), w * 100000001.0 + (1.0 / 3.0), w)  # not float32-representable
+                                td2.set(k, w)
+                            elif v.dtype == torch.int64 and rng.random() < 0.5:
+                                td2.set(k, v.to(rng.choice([torch.int32, torch.int16, torch.uint8])))
+                        path2 = os.path.join(tmp, f"{name}_dtypes.npz")
+                        save_tensordict_to_npz(td2, path2, compress=compress2)
+                        diff2 = td_equal(td2, load_npz_to_tensordict(path2))
+                        ctx.count(f"npz-dtypes:{str(fdt).split('.')[-1]}:{'compressed' if compress2 else 'plain'}")
+                        ctx.case(("npz-dtypes", name, seed, compress2, str(fdt)))
+                        if diff2:
+                            V(ctx, f"npz-roundtrip-dtypes-{'compressed' if compress2 else 'plain'}",
+                              f"save_tensordict_to_npz(compress={compress2}) → load_npz_to_tensordict changes a {fdt} instance: {diff2}",
+                              {"env": name, "generator_params": gp, "seed": seed, "float_dtype": str(fdt), "compress": compress2})
                 if name in ("cvrptw", "mtvrp"):
                     ctx.sample({"case": "generator batch → save_tensordict_to_npz → load_npz_to_tensordict", "env": name, "generator_params": gp, "B": B,
                                 "compress": compress, "compared": "keys, dtypes, shapes, bit-equal values, batch_size", "difference": diff}, cap=2)
